@@ -6,5 +6,5 @@ Extraction Language OCaml.
 Extraction "extracted/c04_model.ml" init step init3 step3 init2 step2
   set_list map_nh map_zh map_hh
   heap_nets heap_buses heap_nodes heap_ifaces heap_msgs heap_enums heap_evals
-  heap_sigs refs_list builder_list
+  heap_sigs refs_list builder_list attr_list
   map_hn names_list shape_list gids_list.
